@@ -14,7 +14,7 @@ RULE = ("Entropies of all five valid lengths x {zeros, ones, single-bit, random}
         "OpenSSL and a hand-written HMAC-SHA512 loop.  Distinct = distinct word sequences / entropies fed to the library.")
 ASSUMPTIONS = ["the word list is data: pinned by the SHA-256 of the official bip-0039/english.txt (final newline normalised)"]
 PASSPHRASES = ["", "TREZOR", "correct horse battery staple", "é", "é", "ＴＲＥＺＯＲ", "한글",
-               "한", "ﬁﬂ", "①²", "　 ", "ạ̇", "\U0001f600", "ÅÅ"]
+               "한", "ﬁﬂ", "①²", "　 ", "ạ̇", "\U0001f600", "ÅÅ", "\u32ff", "x\u2c7cy", "\U0001f130\U0001f131", "\u2150 of it", "\ua7f8\ua7f9", "\U0001d400bc"]
 
 _words = None
 
@@ -50,6 +50,9 @@ def gen_cases(tier, seed):
         yield "seed", {"len": rng.choice(r39.VALID_ENT), "salt": rng.getrandbits(40), "pp": i % len(PASSPHRASES), "extra": i // len(PASSPHRASES) % 2}
     for i in range(10 if q else 100):
         yield "seed", {"len": r39.VALID_ENT[i % 5], "salt": rng.getrandbits(40), "pp": i % len(PASSPHRASES), "extra": 0, "also_valid_as": ["01", "100", "101", "102", "01"][i % 5]}
+    for ln in r39.VALID_ENT:
+        for long_ in (True, False):
+            yield "longest_phrase", {"len": ln, "long": long_, "salt": rng.getrandbits(40)}
     # last words that have ANOTHER list word as a string suffix within the same checksum block (affair/air, abstract/act, extend/end ..):
     # the shorter one must be rejected whenever the longer one is the valid last word
     for ln in r39.VALID_ENT:
@@ -59,7 +62,7 @@ def gen_cases(tier, seed):
 
 def required(tier):
     return {"rt.decided": 700, "invalid_len.refused": 30, "sweep.words": 10000, "sweep.accepted": 200, "mut.decided": 1500,
-            "mut.class.non_list_word": 100, "mut.class.case_variant": 200, "mut.class.unicode_compat": 150, "mut.cli_decided": 500, "mut.ref_accepts": 5, "seed.decided": 70, "seed.class.also_electrum_seed": 6, "suffix.pairs": 6, "seed.class.needs_nfkd": 20, "wordlist.pinned": 1, "cli.mnemonics": 35, "cli.bad_entropy_lengths": 300, "argtypes.calls": 15}
+            "mut.class.non_list_word": 100, "mut.class.case_variant": 200, "mut.class.unicode_compat": 150, "mut.cli_decided": 500, "mut.ref_accepts": 5, "seed.decided": 70, "seed.class.also_electrum_seed": 6, "suffix.pairs": 6, "longest.phrases": 8, "longest.len_ge_200": 1, "seed.class.needs_nfkd": 20, "wordlist.pinned": 1, "cli.mnemonics": 35, "cli.bad_entropy_lengths": 300, "argtypes.calls": 15}
 
 
 def exhaustive(tier, counts):
@@ -164,6 +167,46 @@ def run_case(kind, params, ctx):
                 break
         if len(set(acc_lib.values())) != len(acc_lib):
             ctx.violation(f"to_entropy/not-injective/words{len(base)}", "two accepted sequences map to the same entropy")
+        return
+    if kind == "longest_phrase":
+        # a phrase made of the LONGEST words (8 letters): 24 of them are up to 215 characters - every length limit shorter than that
+        # refuses valid phrases; and the shortest (3-letter words)
+        from . import clihelp
+        ln = params["len"]
+        nwords = ln * 3 // 4
+        pool = [w for w in W if len(w) == (8 if params["long"] else 3)] or W
+        cs_bits = ln * 8 // 32
+        import hashlib as _hl
+        for _ in range(2000):
+            pick = [rng.choice(pool) for _ in range(nwords - 1)]
+            bits_ = 0
+            for w in pick:
+                bits_ = (bits_ << 11) | IDX[w]
+            best = None
+            for tail in range(1 << (11 - cs_bits)):
+                e = (bits_ << (11 - cs_bits)) | tail
+                eb = e.to_bytes(ln, "big")
+                lastw = W[(tail << cs_bits) | (_hl.sha256(eb).digest()[0] >> (8 - cs_bits))]
+                if best is None or (len(lastw) > len(best[1])) == bool(params["long"]) and len(lastw) != len(best[1]):
+                    best = (eb, lastw)
+            if best:
+                break
+        eb, lastw = best
+        seq = r39.mnemonic(eb, W)
+        mn = " ".join(seq)
+        ctx.count("longest.phrases")
+        ctx.count(f"longest.len_ge_200" if len(mn) >= 200 else "longest.other")
+        ctx.seen("longest", mn)
+        ctx.nontrivial()
+        got, err = _lib_to_entropy(mn)
+        if got != eb:
+            ctx.violation("to_entropy/rejects-valid/extreme-phrase-length", f"{len(mn)}-character phrase: {err!r}")
+        rc = clihelp.run(["mnemonic", "--to-entropy", "-0x"], (mn + "\n").encode())
+        if not rc["ok"] or clihelp.parse_out(rc["out"], "hex") != eb:
+            ctx.violation("cli/to-entropy-rejects-valid/extreme-phrase-length", f"bits mnemonic --to-entropy of a valid {len(seq)}-word, {len(mn)}-character phrase printed {rc['out'][:60]!r} (ret {rc['ret']!r})")
+        r4 = clihelp.run(["mnemonic", "--to-seed", "-0x"], (mn + "\n").encode(), passphrase="")
+        if not r4["ok"] or clihelp.parse_out(r4["out"], "hex") != r39.seed(mn, "")[0]:
+            ctx.violation("cli/to-seed-wrong/extreme-phrase-length", f"{len(mn)}-character phrase: printed {r4['out'][:40]!r} (ret {r4['ret']!r})")
         return
     if kind == "suffix_words":
         ln = params["len"]
